@@ -192,6 +192,8 @@ pub struct KFlags {
 pub struct KSys<S: KSub> {
     pub n: u8,
     pub tmax: u8,
+    /// time base: every time and expiration handed to the subject is offset by this (to reach the maximum of the time type)
+    pub tb: u8,
     pub hint: usize,
     pub mode: Mode,
     pub f: KFlags,
@@ -248,6 +250,7 @@ pub fn make<S: KSub>(a: &Args) -> KSys<S> {
     KSys {
         n: a.num("n", 3) as u8,
         tmax: a.num("t", 2) as u8,
+        tb: a.num("tbase", 0) as u8,
         hint: a.num("hint", 8) as usize,
         mode: Mode::parse(a.get("mode").unwrap_or("live")).unwrap_or_else(|| crate::die("bad --mode")),
         f,
@@ -334,7 +337,8 @@ impl<S: KSub> KSys<S> {
         let a = ((st.op >> 8) & 0xff) as u8;
         let b = (st.op & 0xff) as u8;
         let inj = if st.inj == NO_INJ { None } else { Some(st.inj) };
-        let t = o.t;
+        let rel_t = o.t;
+        let t = self.tb + o.t;
         let logging = self.f.o_log && !cx.muted;
         let sub = o.sub.as_mut().expect("subject present");
         let mut ncb = 0;
@@ -345,7 +349,7 @@ impl<S: KSub> KSys<S> {
                     tag = 0;
                 }
                 o.ins_count[a as usize] = tag.wrapping_add(1);
-                let key = EKey { id: a, exp: b, tag };
+                let key = EKey { id: a, exp: self.tb + b, tag };
                 let v = val_of(a, b);
                 rt::cb_reset(inj);
                 if logging {
@@ -356,7 +360,7 @@ impl<S: KSub> KSys<S> {
                 let log = if logging { rt::log_stop() } else { vec![] };
                 match r {
                     Ok(()) => {
-                        if b > t {
+                        if b > rel_t {
                             let pos = o.model.iter().position(|(id, _)| *id > a).unwrap_or(o.model.len());
                             o.model.insert(pos, (a, b));
                         }
@@ -372,10 +376,10 @@ impl<S: KSub> KSys<S> {
                         o.inj_used += 1;
                         cx.count("injected_panics_caught");
                         let sub = o.sub.as_ref().unwrap();
-                        match guard(|| Self::physically_linked(sub, a, b, tag)) {
+                        match guard(|| Self::physically_linked(sub, a, self.tb + b, tag)) {
                             Ok(true) => {
                                 cx.count("post_panic_state_is_after");
-                                if b > t {
+                                if b > rel_t {
                                     let pos = o.model.iter().position(|(id, _)| *id > a).unwrap_or(o.model.len());
                                     o.model.insert(pos, (a, b));
                                 }
@@ -465,7 +469,8 @@ impl<S: KSub> KSys<S> {
                 let sub = o.sub.take().unwrap();
                 let stored = if self.f.o_cap { Self::stored_count(&sub) } else { 0 };
                 rt::cb_reset(None);
-                let r = guard(move || sub.export(tq));
+                let abs_tq = self.tb + tq;
+                let r = guard(move || sub.export(abs_tq));
                 cx.evals += 1;
                 cx.count("exports");
                 match r {
@@ -527,7 +532,7 @@ impl<S: KSub> KSys<S> {
                         }
                         // every live entry must be physically present
                         for (id, e) in &o.model {
-                            if !a.inorder.iter().any(|&i| s.slots[i as usize].payload.0 == *id && s.slots[i as usize].payload.1 == *e) {
+                            if !a.inorder.iter().any(|&i| s.slots[i as usize].payload.0 == *id && s.slots[i as usize].payload.1 == self.tb + *e) {
                                 cx.violate(prop, "structure", format!("live entry (id {id}, exp {e}) is not linked in the tree"));
                                 return;
                             }
@@ -679,7 +684,7 @@ impl<S: KSub> System for KSys<S> {
     }
     fn observe(&self, o: &mut KObj<S>, out: &mut Vec<u64>) {
         rt::cb_reset(None);
-        let t = o.t;
+        let t = self.tb + o.t;
         let n = self.probes();
         let mut sub = o.sub.take().unwrap();
         let r = guard(|| {
